@@ -49,6 +49,7 @@ type Check struct {
 	CaseTimeout     time.Duration
 	HangIsViolation bool
 	MaxJobs         int
+	RaceIsViolation bool // C16: race detector reports are verdicts
 	MinConclusive   int
 	// Findings returns deterministic reproducers of known findings: name -> func
 	// returning (stillReproduces, description).
@@ -77,6 +78,7 @@ func WorkerMain(prop, tier string, seed int64, from, step, total int) int {
 		return 2
 	}
 	w := bufio.NewWriter(os.Stdout)
+	tail := newRaceTail()
 	for i := from; i < total; i += step {
 		fmt.Fprintf(w, "S %d\n", i)
 		w.Flush()
@@ -84,6 +86,18 @@ func WorkerMain(prop, tier string, seed int64, from, step, total int) int {
 		t0 := time.Now()
 		res := runGuarded(chk, c)
 		res.WallMS = time.Since(t0).Milliseconds()
+		for _, rr := range tail.next() {
+			if !rr.Ours {
+				res.Add("race_reports_without_store_frame", 1)
+				continue
+			}
+			res.Add("race_reports", 1)
+			if chk.RaceIsViolation {
+				res.Violate("data-race", "race:"+rr.Sig, 0, rr.Text, "Go race detector report: %s", rr.Sig)
+			} else {
+				res.Add("race_reports_seen_here_but_decided_by_C16", 1)
+			}
+		}
 		if res.ID == "" {
 			res.ID = c.ID()
 		}
@@ -190,7 +204,7 @@ type workerOut struct {
 	logs    map[int]string
 }
 
-func runWorker(exe, prop, tier string, seed int64, from, step, total int, caseTimeout time.Duration, hangViolation bool) workerOut {
+func runWorker(exe, prop, tier string, seed int64, from, step, total int, caseTimeout time.Duration, hangViolation bool, raceBase string) workerOut {
 	var out workerOut
 	out.logs = map[int]string{}
 	start := from
@@ -200,6 +214,9 @@ func runWorker(exe, prop, tier string, seed int64, from, step, total int, caseTi
 		errFile, _ := os.CreateTemp(core.Scratch(), "vchk-werr-")
 		cmd.Stderr = errFile
 		cmd.Env = append(os.Environ(), "GOLOG_LOG_LEVEL=fatal", "GOTRACEBACK=all")
+		if raceBase != "" {
+			cmd.Env = append(cmd.Env, "GORACE=halt_on_error=0 log_path="+raceBase, "VERIF_RACELOG="+raceBase)
+		}
 		stdout, _ := cmd.StdoutPipe()
 		if err := cmd.Start(); err != nil {
 			out.crashed = append(out.crashed, start)
@@ -357,12 +374,18 @@ func Coordinate(exe, prop, tier string, seed int64, jobs int) int {
 		ct = 5 * time.Minute
 	}
 	outs := make([]workerOut, jobs)
+	raceDir, _ := os.MkdirTemp(core.Scratch(), "vchk-racelogs-")
+	defer os.RemoveAll(raceDir)
 	var wg sync.WaitGroup
 	for j := 0; j < jobs; j++ {
 		wg.Add(1)
 		go func(j int) {
 			defer wg.Done()
-			outs[j] = runWorker(exe, prop, tier, seed, j, jobs, total, ct, chk.HangIsViolation)
+			rb := ""
+			if chk.Race {
+				rb = filepath.Join(raceDir, fmt.Sprintf("race-w%d", j))
+			}
+			outs[j] = runWorker(exe, prop, tier, seed, j, jobs, total, ct, chk.HangIsViolation, rb)
 		}(j)
 	}
 	wg.Wait()
